@@ -16,6 +16,7 @@ import sys
 from pathlib import Path
 
 from .. import decor14 as D
+from .. import overlap14 as O
 from ..core import ROOT, WORK, Check, Driver, HarnessError, ddmin, proof_stage
 
 PROP = "C14"
@@ -28,8 +29,13 @@ TRUSTED = [
     "the wrapped function is a script of outcomes (success with a fresh stamped token | listed exception | unlisted exception) and of "
     "DURATIONS: a foreground execution sleeps the scripted number of ticks on the virtual loop before it returns / raises (the model's "
     "`.call o d`), background refreshes complete at explicit `done` operations; a call is atomic (nothing else touches its key while its "
-    "function body runs: concurrent callers are C07); the age of what a call hands out is judged at the instant the call returns",
+    "function body runs: concurrent callers are C07); the age of what a call hands out is judged at the instant the call returns; every call "
+    "is made in a task of its own: a call that executes nothing and cannot return while a recalculation of its key is in flight (early after "
+    "D44) is PARKED (`joined:<id>`), later operations go on, and what it is handed is observed when that recalculation's `done` is played",
     "harness: virtual clock and patched datetime.now (harness/vtime.py), gating of background refresh tasks, canonicalisation (harness/decor14.py)",
+    "overlapping-calls stage (harness/overlap14.py): every body parks on a gate, calls are tasks; which call a body belongs to is read off the "
+    "order in which bodies start; failover / unprotected soft are diffed against Model/Decor/Overlap.lean, the rest is judged by the oracle only; "
+    "capacity stage: oracle only (the ideal TTL map has no size limit)",
     "always explicit early_ttl / soft_ttl: the default ttl*0.33 is a float product outside the model",
     "the store step after a successful execution is scripted too: cfg mode=default uses the facade's default condition (store every "
     "successful result), a plain ttl and no middleware; mode=script passes a user `condition` that turns down / raises on the results the "
@@ -220,7 +226,158 @@ def corpus_cases():
     d = ROOT / "corpus" / PROP
     for f in sorted(d.glob("*.json")):
         c = json.loads(f.read_text())
-        yield f.name, {"cfg": c["cfg"], "ops": c["ops"]}
+        if c.get("stage") is None:
+            yield f.name, {"cfg": c["cfg"], "ops": c["ops"]}
+
+
+def staged_corpus(stage):
+    d = ROOT / "corpus" / PROP
+    return [("corpus:" + f.name, {"cfg": c["cfg"], "ops": c["ops"]}) for f in sorted(d.glob("*.json"))
+            for c in [json.loads(f.read_text())] if c.get("stage") == stage]
+
+
+# ---- overlapping calls (harness/overlap14.py) ----------------------------------------------------------------------
+
+def judge_overlap(case):
+    """run one overlapping-calls case: (run, impl views, model views or None, problems, interesting, first diff)"""
+    run_ = O.execute(case["cfg"], case["ops"])
+    problems, seen = O.oracle(case["cfg"], run_)
+    iv = O.impl_views(case["cfg"], run_)
+    mv, dm = None, None
+    if O.modelled(case["cfg"]):
+        ans = DRIVER.ask(O.model_lines(case["cfg"], case["ops"]))
+        if ans[0] != "ok":
+            raise HarnessError(f"driver rejected the overlap case line: {ans[0]!r}")
+        mv = [O.model_view(a) for a in ans[1:]]
+        dm = next((i for i, (a, b) in enumerate(zip(iv, mv)) if a != b), None)
+    return run_, iv, mv, problems, seen, dm
+
+
+def overlap_replay_dict(case, origin, extra=None):
+    run_, iv, mv, problems, seen, dm = judge_overlap(case)
+    d = {"stage": "overlap", "cfg": case["cfg"], "ops": case["ops"], "origin": origin,
+         "trace": [{"op": e["op"], "t": e["t"], "impl": v, "model": (mv[i] if mv else None)} for i, (e, v) in enumerate(zip(run_["events"], iv))],
+         "calls": run_["calls"], "first_diff_vs_model": dm, "replay_cmd": "./check C14 --replay <this file>"}
+    if extra:
+        d.update(extra)
+    return d, problems, dm, iv, mv
+
+
+def overlap_stage(chk: Check, stats):
+    cases = staged_corpus("overlap") + [(f"overlap:{i}", c) for i, c in enumerate(O.overlap_cases(chk.thorough))]
+    reported, diff_pending = set(), []
+    CH = 250
+    for c0 in range(0, len(cases), CH):
+        chunk = cases[c0:c0 + CH]
+        runs = [O.execute(c["cfg"], c["ops"]) for _, c in chunk]
+        lines, spans = [], []
+        for (_, c), r in zip(chunk, runs):
+            if O.modelled(c["cfg"]):
+                ml = O.model_lines(c["cfg"], c["ops"])
+                spans.append((len(lines), len(ml)))
+                lines.extend(ml)
+            else:
+                spans.append(None)
+        answers = DRIVER.ask(lines) if lines else []
+        for (origin, c), r, sp in zip(chunk, runs, spans):
+            stats["evaluations"] += 1
+            d = c["cfg"]["decor"]
+            problems, seen = O.oracle(c["cfg"], r)
+            key = f"{d}{'+protected' if c['cfg'].get('protected') else ''}"
+            stats["per"][key] = stats["per"].get(key, 0) + 1
+            for s_ in seen:
+                stats["interesting"][f"overlap.{d}.{s_}"] = stats["interesting"].get(f"overlap.{d}.{s_}", 0) + 1
+            if seen:
+                stats["nontrivial"] += 1
+            for sig in sorted({s_ for _, s_, _ in problems}):
+                if (d, sig) in reported:
+                    continue
+                reported.add((d, sig))
+
+                def fails(ops, c=c, sig=sig):
+                    try:
+                        pr, _ = O.oracle(c["cfg"], O.execute(c["cfg"], ops))
+                    except HarnessError:
+                        return False
+                    return any(s2 == sig for _, s2, _ in pr)
+                small = {"cfg": c["cfg"], "ops": ddmin(c["ops"], fails)}
+                rd, pr, dm, iv, mv = overlap_replay_dict(small, origin)
+                hit = [x for x in pr if x[1] == sig] or [(0, sig, "lost while shrinking")]
+                prot = " protected=True" if c["cfg"].get("protected") else (" protected=False" if d in ("soft", "early") else "")
+                chk.violation(f"{d}{prot}, overlapping calls: {hit[0][2]} — at op {hit[0][0]} of {small['ops']}", rd, signature=sig)
+                stats["found_real"] += 1
+            if sp is not None and not problems:
+                a0, n = sp
+                if answers[a0] != "ok":
+                    raise HarnessError(f"driver rejected the overlap case line {lines[a0]!r}: {answers[a0]!r}")
+                mv = [O.model_view(a) for a in answers[a0 + 1:a0 + n]]
+                if mv != O.impl_views(c["cfg"], r):
+                    stats["diffs"] += 1
+                    if not any(x[1]["cfg"]["decor"] == d for x in diff_pending):
+                        diff_pending.append((origin, c))
+    for origin, c in diff_pending:
+        if any(dd == c["cfg"]["decor"] for dd, _ in reported):
+            continue
+
+        def fails(ops, c=c):
+            try:
+                return judge_overlap({"cfg": c["cfg"], "ops": ops})[5] is not None
+            except HarnessError:
+                return False
+        small = {"cfg": c["cfg"], "ops": ddmin(c["ops"], fails)}
+        rd, pr, dm, iv, mv = overlap_replay_dict(small, origin, {"broken": "correspondence model Decor/Overlap <-> code"})
+        if dm is None:
+            continue
+        chk.violation(f"correspondence broken (overlapping calls): cashews/decorators/cache/{c['cfg']['decor']}.py differs from "
+                      f"Model/Decor/Overlap.lean at op {dm} `{small['ops'][dm]}`: impl `{iv[dm]}` vs model `{mv[dm]}` in {small['ops']}; "
+                      f"the property's sentences hold on this case", rd, signature=None, no_input=True)
+    return len(cases)
+
+
+# ---- hit on a store at capacity ------------------------------------------------------------------------------------
+
+CAP_SIGS = ("hit-too-many-serves", "unexpected-result")
+
+
+def capacity_problems(case):
+    ev = D.execute(case["cfg"], case["ops"])
+    pr, _ = D.oracle(case["cfg"], ev)
+    return ev, [p for p in pr if p[1] in CAP_SIGS]
+
+
+def capacity_stage(chk: Check, stats):
+    cases = staged_corpus("capacity") + [(f"capacity:{i}", c) for i, c in enumerate(O.capacity_cases(chk.rng, chk.thorough))]
+    reported = set()
+    for origin, c in cases:
+        ev, problems = capacity_problems(c)
+        stats["evaluations"] += 1
+        stats["per"]["hit@capacity"] = stats["per"].get("hit@capacity", 0) + 1
+        served = [e for e in ev if e["kind"] == "call" and e["res"].startswith("stored")]
+        executed = sum(1 for e in ev if e["kind"] == "call" and e["x"])
+        if served and executed > 1:
+            stats["nontrivial"] += 1
+            stats["interesting"]["capacity.hit.served_and_reexecuted_on_a_full_store"] = \
+                stats["interesting"].get("capacity.hit.served_and_reexecuted_on_a_full_store", 0) + 1
+        for sig in sorted({s_ for _, s_, _ in problems}):
+            if sig in reported:
+                continue
+            reported.add(sig)
+
+            def fails(ops, c=c, sig=sig):
+                try:
+                    return any(p[1] == sig for p in capacity_problems({"cfg": c["cfg"], "ops": ops})[1])
+                except HarnessError:
+                    return False
+            small = {"cfg": c["cfg"], "ops": ddmin(c["ops"], fails)}
+            ev2, pr2 = capacity_problems(small)
+            hit = [x for x in pr2 if x[1] == sig] or [(0, sig, "lost while shrinking")]
+            chk.violation(f"hit on a store at capacity ({O.CAP_STORES[small['cfg']['store']]}): {hit[0][2]} — at op {hit[0][0]} of "
+                          f"{small['ops']} (answers {[e['impl'].split()[0] for e in ev2]})",
+                          {"stage": "capacity", "cfg": small["cfg"], "ops": small["ops"], "origin": origin,
+                           "trace": [{"op": e["op"], "t": e["t"], "impl": e["impl"]} for e in ev2],
+                           "replay_cmd": "./check C14 --replay <this file>"}, signature=sig)
+            stats["found_real"] += 1
+    return len(cases)
 
 
 def exhaustive_cases():
@@ -253,6 +410,29 @@ def exhaustive_cases():
                         out.append({"cfg": cfg, "ops": ops})
     out += store_step_grid()
     out += duration_grid()
+    out += recalculation_grid()
+    return out
+
+
+def recalculation_grid():
+    """early, background on, every (ttl, early_ttl) x outcome of the recalculation: a recalculation that outlives its lock key
+    (a stale hit after it must start nothing) and the stored result (cold misses meanwhile execute nothing, are parked on it and
+    answered when it completes — two of them, one with a duration of its own that must be ignored), then the calls after it"""
+    out = []
+    for ttl in D.TTLS:
+        for inner in D.INNERS:
+            for store in ("plain", "purge"):
+                cfg = {"decor": "early", "ttl": ttl, "inner": inner, "hits": 0, "upd": 0, "bg": 1, "store": store}
+                for o in ("ok", "lis", "unl"):
+                    ops = ["call a ok", f"adv {inner + 1}", "call a ok", f"adv {inner}", "call a lis", f"adv {max(ttl - 2 * inner - 1, 0)}",
+                           "call a lis 2", "adv 1", "call a ok 3", "call b ok 1", "adv 1", f"done a 0 {o}", "call a lis", "call a ok 1",
+                           f"adv {inner + 1}", "call a lis", f"adv {ttl}", "call a lis 1", f"done a 0 {o}", "call a ok"]
+                    out.append({"cfg": cfg, "ops": ops})
+    for ttl in D.TTLS:
+        for f in D.SCRIPT_EXTRA["early"]:
+            cfg = {"decor": "early", "ttl": ttl, "inner": 4, "hits": 0, "upd": 0, "bg": 1, "store": "plain", "mode": "script"}
+            ops = ["call a ok", "adv 5", "call a ok", f"adv {ttl}", f"call a {f}", "call a lis", f"done a 0 {f}", "call a lis", "call a ok"]
+            out.append({"cfg": cfg, "ops": ops})
     return out
 
 
@@ -327,7 +507,7 @@ def store_step_grid():
 
 def run(chk: Check) -> int:
     proof = proof_stage(PROP, "driver_c14", chk.thorough) if not getattr(chk, "skip_proof", False) else None
-    n = chk.budget(12000, 300000)
+    n = chk.budget(8000, 280000)
     enum_len = chk.budget(4, 6)
     cases = [("corpus:" + name, c) for name, c in corpus_cases()]
     ncorpus = len(cases)
@@ -350,6 +530,11 @@ def run(chk: Check) -> int:
         enum_sizes[f"{cfg['decor']} bg={cfg['bg']} hits={cfg['hits']} upd={cfg['upd']} mode={cfg.get('mode', 'default')} executions "
                    f"with durations (1..{enum_len_d} ops): |alphabet|={len(alphabet)}"] = len(hs)
         cases += [(f"enum-dur:{cfg['decor']}:{i}", {"cfg": cfg, "ops": h}) for i, h in enumerate(hs)]
+    enum_len_j = chk.budget(6, 7)
+    for cfg, alphabet in D.ENUM_JOIN:
+        hs = D.enumerate_histories(alphabet, enum_len_j)
+        enum_sizes[f"{cfg['decor']} bg={cfg['bg']} one recalculation at a time (1..{enum_len_j} ops): |alphabet|={len(alphabet)}"] = len(hs)
+        cases += [(f"enum-join:{i}", {"cfg": cfg, "ops": h}) for i, h in enumerate(hs)]
     decors = ["early", "soft", "fail", "hit", "early", "hit"]
     for i in range(n):
         cfg = D.gen_cfg(chk.rng, decors[i % len(decors)])
@@ -414,11 +599,28 @@ def run(chk: Check) -> int:
     for origin, case in pending_diff:
         if case["cfg"]["decor"] not in real_decors:      # a genuine violation of the same decorator says it all
             report_diff(chk, case, origin)
+    stage = {"evaluations": 0, "nontrivial": 0, "per": {}, "interesting": {}, "found_real": 0, "diffs": 0}
+    n_overlap = overlap_stage(chk, stage)
+    n_capacity = capacity_stage(chk, stage)
+    found_real += stage["found_real"]
+    diffs += stage["diffs"]
+    interesting.update(stage["interesting"])
+    per_decor.update({"stage:" + k: v for k, v in stage["per"].items()})
     if proof is not None:
         chk.proof_broken(proof, found_real > 0)
     chk.coverage.update({
-        "evaluations": evaluations,
-        "distinct_nontrivial": len(distinct),
+        "evaluations": evaluations + stage["evaluations"],
+        "distinct_nontrivial": len(distinct) + stage["nontrivial"],
+        "overlapping_calls_cases": n_overlap,
+        "capacity_cases": n_capacity,
+        "stages_note": "overlapping calls: a stored result aged young / stale / one or two ticks before its ttl / expired, then EVERY interleaving of "
+                       "two calls (begin / finish of their function bodies) x outcomes ok/listed x time steps between the steps, and every interleaving "
+                       "of three calls, for failover, soft (single-flight protection off and on), early (background on/off, protection off/on) and hit; "
+                       "judged by the property's sentences (failover: the function is executed for every call and a stored result is returned only after a "
+                       "listed exception of the call's OWN execution; soft / early: nothing older than ttl is handed out, a stale result only after a listed "
+                       "failure), failover and unprotected soft also diffed against Model/Decor/Overlap.lean. capacity: hit on `mem://?size=3..5` with filler "
+                       "keys set / deleted between the calls (every history of 1..6 ops over a 4-letter alphabet for size 3, cache_hits 1, plus sampled ones), "
+                       "judged by 'served at most cache_hits times before the function is executed again'",
         "rule": "call histories (1..30 ops: call with scripted outcome ok/listed/unlisted, about a third of the calls with a DURATION for their "
                 "function body — it sleeps that long on the virtual loop before returning / raising; aimed so that the execution ends just "
                 "below / exactly at / just beyond the inner and the hard TTL of the stored result, or outlasts the early lock — and, for the half of the configurations with "
@@ -434,7 +636,9 @@ def run(chk: Check) -> int:
                 "call exactly at an inner/hard TTL, an execution that took time / straddled the ttl of the stored result / outlasted the inner ttl or the "
                 "early lock, a listed failure after the result expired DURING the execution, a stale value served after a slow failure that ended "
                 "inside ttl, a result young only because its deadlines count from the completion of a slow execution, a foreground refresh that "
-                "straddles the ttl (fresh result served), refresh started / in flight during a call / finishing after a later call / outliving "
+                "straddles the ttl (fresh result served), a cold miss parked on the recalculation in flight and answered fresh / with its exception "
+                "at the `done`, several callers parked on one recalculation, a stale hit after the recalculation outlived its lock key (starts "
+                "nothing), refresh started / in flight during a call / finishing after a later call / outliving "
                 "its lock, failing foreground or background refresh, stale value served on a listed exception, listed failure after hard "
                 "expiry, last allowed hit, execution after cache_hits serves, refresh at update_after, a store step failing (by stage and by "
                 "exception class) with and without an older result stored, in a foreground / background refresh, a turned-down result and the "
@@ -477,6 +681,30 @@ def run(chk: Check) -> int:
 def replay(chk: Check, path: str) -> int:
     c = json.loads(Path(path).read_text())
     case = {"cfg": c["cfg"], "ops": c["ops"]}
+    if c.get("stage") == "overlap":
+        rd, problems, dm, iv, mv = overlap_replay_dict(case, "replay")
+        for i, tr in enumerate(rd["trace"]):
+            print(f"t={tr['t']:<5d} {tr['op']:14s} impl={tr['impl']:34s} model={tr['model']}")
+        for k, cl in enumerate(rd["calls"]):
+            print(f"call {k}: began {cl['t']}, own execution {cl['own']}, answered {cl['res']} at {cl['t_ans']} (by the end of execution {cl['via']})")
+        for i, s_, txt in problems:
+            print(f"problem at op {i}: [{s_}] {txt}")
+        if problems or dm is not None:
+            print(f"VIOLATION property={PROP} replay={path}")
+            return 1
+        print("replay: no disagreement")
+        return 0
+    if c.get("stage") == "capacity":
+        ev, problems = capacity_problems(case)
+        for e in ev:
+            print(f"t={e['t']:<5d} {e['op']:18s} impl={e['impl']}")
+        for i, s_, txt in problems:
+            print(f"problem at op {i}: [{s_}] {txt}")
+        if problems:
+            print(f"VIOLATION property={PROP} replay={path}")
+            return 1
+        print("replay: no disagreement")
+        return 0
     events, answers, problems, seen, dm = judge(case)
     print(D.case_line(case["cfg"]), "store=" + case["cfg"]["store"], "mode=" + case["cfg"].get("mode", "default"))
     for e, a in zip(events, answers):
